@@ -120,7 +120,10 @@ Fixpoint first_bad_ev (n : N) (tbl : snapshot) (evs : list wevent) : option (N *
 Section Disc.
 Variable V R : Type.
 
-Inductive lclass := Frozen | Idem (v : V) | Priv (i : nat).
+(* Multi P: a location that may hold, at any time, nothing or any value satisfying P, and that any thread may set to
+   any such value (a cache that is invalidated and refilled, a per-call scratch attribute nobody's result depends on):
+   confluent as long as every reader copes with every answer *)
+Inductive lclass := Frozen | Idem (v : V) | Priv (i : nat) | Multi (P : V -> Prop).
 Variable cls : N -> lclass.
 Variable base : store V.          (* the values of the Frozen locations *)
 
@@ -141,7 +144,10 @@ Inductive okp (i : nat) : store V -> known -> prog V R -> R -> store V -> Prop :
 | p_get_known : forall pv kn k v f r pf, cls k = Idem v -> kn k = true -> okp i pv kn (f (Some v)) r pf -> okp i pv kn (Get k f) r pf
 | p_get_idem : forall pv kn k v f r pf, cls k = Idem v ->
     okp i pv kn (f None) r pf -> okp i pv (addk k kn) (f (Some v)) r pf -> okp i pv kn (Get k f) r pf
-| p_put_idem : forall pv kn k v p r pf, cls k = Idem v -> okp i pv (addk k kn) p r pf -> okp i pv kn (Put k v p) r pf.
+| p_put_idem : forall pv kn k v p r pf, cls k = Idem v -> okp i pv (addk k kn) p r pf -> okp i pv kn (Put k v p) r pf
+| p_get_multi : forall pv kn k P f r pf, cls k = Multi P ->
+    okp i pv kn (f None) r pf -> (forall v, P v -> okp i pv kn (f (Some v)) r pf) -> okp i pv kn (Get k f) r pf
+| p_put_multi : forall pv kn k P v p r pf, cls k = Multi P -> P v -> okp i pv kn p r pf -> okp i pv kn (Put k v p) r pf.
 
 (* stores that hold the frozen data and any part of the Idem table (own locations: anything) *)
 Definition consistentc (s : store V) : Prop :=
@@ -149,16 +155,17 @@ Definition consistentc (s : store V) : Prop :=
             | Frozen => s k = base k
             | Idem v => s k = None \/ s k = Some v
             | Priv _ => True
+            | Multi P => s k = None \/ exists v, P v /\ s k = Some v
             end.
 
 Definition agree_priv (i : nat) (s pv : store V) : Prop := forall k, cls k = Priv i -> s k = pv k.
 
 (* a log entry is legal when it is an Idem write or a write of the owner *)
 Definition log_legal (e : nat * N) : Prop :=
-  match cls (snd e) with Frozen => False | Idem _ => True | Priv j => j = fst e end.
+  match cls (snd e) with Frozen => False | Idem _ => True | Priv j => j = fst e | Multi _ => True end.
 
 End Disc.
-Arguments Frozen {V}. Arguments Idem {V}. Arguments Priv {V}.
+Arguments Frozen {V}. Arguments Idem {V}. Arguments Priv {V}. Arguments Multi {V}.
 Arguments okp {V R}. Arguments consistentc {V}. Arguments agree_priv {V}. Arguments memo_of {V}. Arguments log_legal {V}.
 
 (* ------------------------------------------------------------------------------------------ *)
@@ -276,3 +283,56 @@ Arguments set_restore {V R}. Arguments publish_update {V R}. Arguments scratch {
 Arguments memo_fold {V R}. Arguments peek_fold {V R}. Arguments pure_vals {V}.
 Arguments op_statistics {V R}. Arguments op_count {V R}. Arguments op_read {V R}. Arguments op_derive {V R}.
 Arguments op_head {V R}. Arguments op_iter {V R}. Arguments op_pickle {V R}.
+
+(* ------------------------------------------------------------------------------------------ *)
+(* 6. deletion                                                                                 *)
+(* ------------------------------------------------------------------------------------------ *)
+(* The store of Interleave.v has no removal.  Deletion is modelled in the LIFTED value space `option W`: the value
+   `None` is a tombstone (`del d[k]`, `d.pop(k)`, `self._x = None` for a memo attribute whose "not computed" marker is
+   None); programs look at a location through [view], which shows a tombstone as absent. *)
+Section Deletion.
+Variable W R : Type.
+
+Definition view (o : option (option W)) : option W := match o with Some (Some w) => Some w | _ => None end.
+Definition Del (k : N) (p : prog (option W) R) : prog (option W) R := Put k None p.
+Definition SetV (k : N) (w : W) (p : prog (option W) R) : prog (option W) R := Put k (Some w) p.
+Definition GetV (k : N) (f : option W -> prog (option W) R) : prog (option W) R := Get k (fun o => f (view o)).
+
+(* the values an invalidated-and-refilled cache may hold: the tombstone or its one value *)
+Definition cacheP (w : W) : option W -> Prop := fun v => v = None \/ v = Some w.
+
+(* use of a cache WITHOUT read-back: v = d.get(k); if v is None: v = g(immutable); d[k] = v *)
+Definition use_cache (k : N) (ks : list N) (g : list (option (option W)) -> W) (cont : W -> prog (option W) R) : prog (option W) R :=
+  GetV k (fun o => match o with
+                   | Some w => cont w
+                   | None => read_all ks [] (fun vals => SetV k (g vals) (cont (g vals)))
+                   end).
+
+(* use WITH read-back: if not hasattr(s, k): s[k] = g(...);  v = s[k]      (KeyError when it vanished in between) *)
+Definition use_cache_readback (k : N) (ks : list N) (g : list (option (option W)) -> W) (err : R) (cont : W -> prog (option W) R)
+  : prog (option W) R :=
+  GetV k (fun o =>
+    let back := GetV k (fun o' => match o' with Some w => cont w | None => Ret err end) in
+    match o with
+    | Some _ => back
+    | None => read_all ks [] (fun vals => SetV k (g vals) back)
+    end).
+End Deletion.
+Arguments view {W}. Arguments Del {W R}. Arguments SetV {W R}. Arguments GetV {W R}. Arguments cacheP {W}.
+Arguments use_cache {W R}. Arguments use_cache_readback {W R}.
+
+(* kinds of observed events (for the report of the monitor) *)
+Inductive ekind := EPublish | ESame | EChange | ERemove | ENone.
+Definition ev_kind (e : wevent) : ekind :=
+  match e_old e, e_new e with
+  | None, Some _ => EPublish
+  | Some a, Some b => if N.eqb a b then ESame else EChange
+  | Some _, None => ERemove
+  | None, None => ENone
+  end.
+Definition ekind_code (k : ekind) : N := match k with EPublish => 0 | ESame => 1 | EChange => 2 | ERemove => 3 | ENone => 4 end%N.
+
+(* the footprint condition relative to a set of VOLATILE locations (class Multi: invalidated caches, per-call scratch
+   attributes): their events are not constrained; all others as in [footprint_ok] *)
+Definition footprint_ok_vol (vol : N -> bool) (evs : list wevent) : bool :=
+  footprint_ok (filter (fun e => negb (vol (e_key e))) evs).
